@@ -388,4 +388,25 @@ def rule_r7(ctx):
     return rr
 
 
-RULES = [("C13-R1", rule_r1), ("C13-R2", rule_r2), ("C13-R3", rule_r3), ("C13-R4", rule_r4), ("C13-R5", rule_r5), ("C13-R6", rule_r6), ("C13-R7", rule_r7), ("C13-R8", rule_r8)]
+def rule_temporaries(ctx):
+    """The value/pattern temporaries of the assignment templates are fresh per use (shared rule C09-R1,
+    restricted to the assignment statements): a nested pattern must not overwrite the temporary its
+    enclosing level is still reading."""
+    from .c09 import rule_r1 as c09r1
+
+    src = c09r1(ctx)
+    rr = RuleResult("C09-R1", "assignment temporaries are fresh per use (instance of C09-R1)")
+    rr.floor = 1
+    for f in src.findings:
+        if any(f"|{k}|" in f.key for k in ("Assign", "AnnAssign", "AugAssign", "NamedExpr", "For", "With")):
+            rr.fail(f.key, f.msg, where=f.where)
+    for w in sorted(map(str, src.nontrivial)):
+        if any(k in w for k in ("Assign", "ASSIGN", "AUGASS")):
+            rr.instances += 1
+            rr.ok(w)
+    if rr.instances == 0 and not rr.findings:
+        rr.instances = 1 if src.obligations else 0
+    return rr
+
+
+RULES = [("C13-R1", rule_r1), ("C13-R2", rule_r2), ("C13-R3", rule_r3), ("C13-R4", rule_r4), ("C13-R5", rule_r5), ("C13-R6", rule_r6), ("C13-R7", rule_r7), ("C13-R8", rule_r8), ("C09-R1", rule_temporaries)]
